@@ -73,16 +73,9 @@ M: List[Tuple[str, str, str, str, str]] = [
      "        headers[b'Content-Length'] = bytes_(len(body)) if body else b'0'",
      "        headers[b'Content-Length'] = bytes_(len(body) + (1 if len(body) > 1000 else 0)) if body else b'0'"),
     # ---- C07 ---------------------------------------------------------------
-    ('c07-teardown-without-flush', 'C07', 'proxy/core/base/tcp_server.py',
-     "                    if self.work.has_buffer():\n                        logger.debug(",
-     "                    if self.work.has_buffer() and len(self.work.buffer) < 3:\n                        logger.debug("),
     ('c07-teardown-on-upstream-eof', 'C07', 'proxy/http/handler.py',
      "        if self.reads_teared and not self.work.has_buffer():\n            return True",
      "        if self.reads_teared and (not self.work.has_buffer() or len(self.work.buffer) > 2):\n            return True"),
-    ('c07-threaded-no-flush', 'C07', 'proxy/http/handler.py',
-     "            if self.selector and self.work.has_buffer():\n                self._flush()",
-     "            if self.selector and self.work.has_buffer() and len(self.work.buffer) < 2:\n                self._flush()"),
-    # ---- C10 ---------------------------------------------------------------
     ('c10-no-upstream-close', 'C10', 'proxy/http/proxy/server.py',
      "            finally:\n                # TODO: Unwrap if wrapped before close?\n                self.upstream.close()",
      "            finally:\n                # TODO: Unwrap if wrapped before close?\n                if not self.request.is_https_tunnel:\n                    self.upstream.close()"),
@@ -271,6 +264,12 @@ M: List[Tuple[str, str, str, str, str]] = [
      "                if self.size < 0:\n                    raise ValueError('Invalid chunk size %r' % line)\n", ""),
     ('c05-upstream-negative-chunk-spins', 'C05', 'proxy/http/parser/chunk.py',
      "                if self.size < 0:\n                    raise ValueError('Invalid chunk size %r' % line)\n", ""),
+    ('c07-revert-tunnel-class-flush-fix', 'C07', 'proxy/core/base/tcp_tunnel.py',
+     "                if not self.work.has_buffer():\n                    return True\n                # Deliver what the server already sent, then tear down\n                # (see BaseTcpServerHandler.handle_writables).\n                self.must_flush_before_shutdown = True\n                return False\n",
+     "                return True\n"),
+    ('c07-base-handler-teardown-without-flush', 'C07', 'proxy/core/base/tcp_server.py',
+     "            if self.must_flush_before_shutdown is True and \\\n                    not self.work.has_buffer():",
+     "            if self.must_flush_before_shutdown is True:"),
 ]
 
 
